@@ -485,7 +485,7 @@ def render_extract(ex, report, vacuity=False):
         li = bmsk.count('\n', 0, brace_off)
         col = brace_off - (bmsk.rfind('\n', 0, brace_off) + 1) + 1
         # stay behind the `let x = *x__r;` that R1 put right after the brace
-        m = re.match(r'\s*let (?:[a-z_][A-Za-z0-9_]* = \*[a-z_][A-Za-z0-9_]*__r|\([a-z_][A-Za-z0-9_]*, [a-z_][A-Za-z0-9_]*\) = [a-z_][A-Za-z0-9_]*__pr);', bmsk[brace_off + 1:])
+        m = re.match(r'\s*let (?:[a-z_][A-Za-z0-9_]* = \*[a-z_][A-Za-z0-9_]*__r|\([a-z_][A-Za-z0-9_]*(?:, [a-z_][A-Za-z0-9_]*)+\) = [a-z_][A-Za-z0-9_]*__pr);', bmsk[brace_off + 1:])
         if m:
             col += m.end()
         inline[(li, col)] = lines
